@@ -659,8 +659,8 @@ def finalize(agg, tier, seed):
 
     need("calibration_triples_agree", 100)
     need("triples_compared", 100)
-    need("pairs", 45000 if q else 280000)
-    need("pairs_enumerated", 10000 if q else 90000)
+    need("pairs", 45000 if q else 350000)
+    need("pairs_enumerated", 10000 if q else 150000)
     need("pairs_reference_compatible", 12000 if q else 60000)
     need("pairs_reference_incompatible", 12000 if q else 60000)
     need("pairs_typevar_in_source_one_sided", 3000)
@@ -678,8 +678,8 @@ def finalize(agg, tier, seed):
         need(f"pipelines_{t}", 100 if q else 1500)
     for k in ["direct", "elementwise", "reduce-whole", "reduce-colon", "reduce-partial", "direct+tupleout",
               "elementwise+tupleout", "reduce-whole+tupleout", "direct+renamed"]:
-        need(f"edges_{k}_compatible", 30 if q else 400)
-        need(f"edges_{k}_incompatible", 30 if q else 400)
-    if len(agg.keys) < (30000 if q else 200000):
+        need(f"edges_{k}_compatible", 25 if q else 300)
+        need(f"edges_{k}_incompatible", 12 if q else 150)
+    if len(agg.keys) < (30000 if q else 150000):
         floors.append(f"only {len(agg.keys)} distinct non-trivial cases")
     return floors, {}
